@@ -31,13 +31,24 @@ class DelayJob(Job):
         self.runs = 0
 
     def run(self):
-        self.runs += 1
+        with _LOCK:
+            self.runs += 1
         if self.delay:
             time.sleep(self.delay)
         self.value = job_value(self.x)
         self.t_done = time.monotonic()
         with _LOCK:
             COMPLETION_LOG.append((self.token, self.x))
+
+
+class ValueJob(DelayJob):
+    """a job with value-based equality: two requests for the same x compare and hash equal"""
+
+    def __eq__(self, other):
+        return isinstance(other, ValueJob) and other.x == self.x
+
+    def __hash__(self):
+        return hash(("ValueJob", self.x))
 
 
 class OneShot:
